@@ -212,11 +212,16 @@ func (c *Ctx) Add(rule, construct string, pos token.Pos, v Verdict, msg string) 
 }
 
 // Floor records a vacuity guard. The call sites pass the instance count confirmed by hand on the reference tree (or a
-// little below it); the check fails only when fewer than half of them are left, because a refactoring that merges two
+// little below it); the check fails only when fewer than half of them are left (and never for rules with one or two instances), because a refactoring that merges two
 // call sites into a helper, or splits one, legitimately moves the count by a few — it must not make the rule vacuous,
 // and it must not make the check cry wolf either.
 func (c *Ctx) Floor(rule, what string, got, min int) {
-	if min > 1 {
+	switch {
+	case min <= 2:
+		// one or two confirmed instances: any refactoring of those sites removes them; the positive examples for such a
+		// rule are its mutants in the thorough tier, not a count
+		min = 0
+	default:
 		min = (min + 1) / 2
 	}
 	c.Floors = append(c.Floors, Floor{rule, what, got, min})
